@@ -2,7 +2,7 @@
     parameterised by the accessor/table lists that tools/go2coq generated from
     the source in this very run. *)
 From Coq Require Import NArith List String Bool.
-From CSS Require Import Lib.Cases Lib.SymBits Lib.RegTypes Lib.RegOblig Model.Registers.
+From CSS Require Import Lib.Cases Lib.SymBits Lib.RegTypes Lib.RegOblig Model.Registers Model.RegisterHeap.
 Import ListNotations.
 Open Scope N_scope.
 
@@ -12,7 +12,29 @@ Inductive case : Type :=
 (* register type, raw value, what Fields() returned: name, offset, size, value *)
 | CFields (reg : string) (raw : N) (fs : list (string * N * N * N))
 (* image length, non-zero bytes (offset, value), what ReadTXTRegisters returned: (ID, raw value) *)
-| CRead (len : N) (bytes : list (N * N)) (regs : list (string * N)).
+| CRead (len : N) (bytes : list (N * N)) (regs : list (string * N))
+(* a session on one process: Fields() calls interleaved with writes into the byte slices handed
+   out so far.  Compact literals: byte strings are written as one number, little endian, with
+   a 1 appended as most significant byte ([enc_bytes]: length and content); per operation the
+   new fields as they read right after the call: offset, size, [enc_bytes] of Value, index of
+   the first value handed out in this session whose memory overlaps this Value (its own index
+   when it is fresh); at the end [enc_bytes] of how every value reads.  Field names are
+   compared by the CFields cases. *)
+| CSession (ops : list sop) (obs : list (list (N * N * N * nat))) (fin : list N)
+with sop :=
+| SFields (reg : string) (raw : N)
+| SKey (key : N)                        (* the 32 key bytes as a little-endian number *)
+| SWrite (g : nat) (v : N) (len : nat). (* len bytes, little endian *)
+
+Definition sop_op (o : sop) : op :=
+  match o with
+  | SFields r x => OpFields r x
+  | SKey k => OpKeyFields (le_bytes 32 k)
+  | SWrite g v n => OpWrite g (le_bytes n v)
+  end.
+Definition enc_bytes (l : list N) : N := le_value (l ++ [1]).
+Definition enc_ofield (f : ofield) : N * N * N * nat :=
+  let '(_, o, s, v, a) := f in (o, s, enc_bytes v, a).
 
 (** TXT configuration space layout: register ID, offset, size in bytes
     (constants *RegisterOffset in pkg/registers/txt_*.go and the Go type read). *)
@@ -52,6 +74,11 @@ Fixpoint fields4_eqb (a b : list (string * N * N * N)) : bool :=
   | _, _ => false
   end.
 
+Definition cfield_eqb (a b : N * N * N * nat) : bool :=
+  let '(o, s, v, ad) := a in
+  let '(o', s', v', ad') := b in
+  N.eqb o o' && N.eqb s s' && N.eqb v v' && Nat.eqb ad ad'.
+
 Definition check (accs : list accessor) (tabs : list table) (c : case) : bool :=
   match c with
   | CAcc n raw got =>
@@ -73,6 +100,12 @@ Definition check (accs : list accessor) (tabs : list table) (c : case) : bool :=
                                          end
                         | None => false
                         end) regs
+  | CSession ops obs fin =>
+      match run tabs empty_state (map sop_op ops) with
+      | Some (o, s) => list_eqb (list_eqb cfield_eqb) (map (map enc_ofield) o) obs
+                       && list_eqb N.eqb (map enc_bytes (final s)) fin
+      | None => false
+      end
   end.
 
 Definition mismatches_gen (accs : list accessor) (tabs : list table) := mismatches_by (check accs tabs).
